@@ -107,6 +107,13 @@ def check(ctx, args):
     okc = ctx.coq_build()
     if okc:
         ctx.property_theorems()
+    if okc and ctx.tier == "thorough":
+        # independent re-check of the compiled development by coqchk
+        with lib.Lock():
+            p = lib.run(["coqchk", "-silent", "-o", "-Q", lib.COQ, "Martian", "Martian.Properties.C12"], timeout=1500, cwd=lib.COQ)
+        out = p.stdout
+        ctx.oblige("coqchk re-checks Properties.C12 and its dependencies: no axioms, no type-in-type, no assumed positivity/guardedness",
+                   p.returncode == 0 and out.count("<none>") >= 4, out[-800:])
     s = ctx.scratch
     cases, impl, model, oracle = (os.path.join(s, n) for n in ("cases.txt", "impl.txt", "model.txt", "oracle.txt"))
     if not okb:
